@@ -8,6 +8,7 @@ verus! {
 //@include shims/offsetdatetime.rs
 //@include shims/time_ops.rs
 //@include shims/idm_common.rs
+//@include shims/std_option.rs
 // the code's own constants, substituted from the source text on every run
 pub const AUTH_TOKEN_GRACE_WINDOW: Duration = Duration { secs: @@constexpr:AUTH_TOKEN_GRACE_WINDOW:Duration::from_secs\((.*)\)@@, nanos: 0 };
 pub const UUID_ANONYMOUS: Uuid = Uuid(@@constexpr:UUID_ANONYMOUS:uuid!\("([0-9a-f-]+)"\):uuidhex@@);
